@@ -101,8 +101,11 @@ func Load(o Options) (*Program, error) {
 	InlinedSetters = map[string]bool{}
 	if os.Getenv("MASTCHECK_NOINLINE") == "" && o.Patterns == nil {
 		cur := o.Overlay
-		for pass := 0; pass < 4; pass++ {
-			ov, log := inlineRewrite(pkgs, cur)
+		for pass := 0; pass < 5; pass++ {
+			ov, log := boundMethodRewrite(pkgs, cur)
+			if ov == nil {
+				ov, log = inlineRewrite(pkgs, cur)
+			}
 			if ov == nil {
 				ov, log = setterRewrite(pkgs, cur)
 			}
